@@ -4,7 +4,7 @@
    over as Elements; corner radii larger than half the size) are refuted by
    witnesses in Props/C17.v. *)
 From Coq Require Import ZArith QArith Qcanon Reals List Bool Field Lia Lra.
-From SVP Require Import Base.Num Base.FieldTac Model.SvgTree Proofs.SvgTreeAlg.
+From SVP Require Import Base.Num Base.FieldTac Model.SvgTree Proofs.SvgTreeAlg Proofs.SvgTreeFlat.
 Import ListNotations.
 
 (* what the comparisons of the carrier must satisfy (true in R and in Qc) *)
@@ -62,17 +62,25 @@ Section Shapes.
   Proof. unfold pos. intros H ->. rewrite (ltb_irrefl CMP) in H. discriminate. Qed.
 
   (* ---- path: the d attribute is handed to parse_path unchanged ---- *)
-  Lemma convert_path rt a : convert N rt KPath a = shape_spec N KPath a.
+  Lemma convert_path c rt a : convert N c rt KPath a = shape_spec N KPath a.
   Proof. reflexivity. Qed.
 
   (* ---- line ---- *)
-  Lemma convert_line_document a : convert N RDocument KLine a = shape_spec N KLine a.
+  Lemma convert_line_document c a : convert N c RDocument KLine a = shape_spec N KLine a.
   Proof. reflexivity. Qed.
-  Lemma convert_line_svg2paths a x1 y1 x2 y2 :
+  Lemma convert_line_svg2paths c a x1 y1 x2 y2 :
     a_x1 a = Some x1 -> a_y1 a = Some y1 -> a_x2 a = Some x2 -> a_y2 a = Some y2 ->
-    convert N RSvg2paths KLine a = shape_spec N KLine a.
+    convert N c RSvg2paths KLine a = shape_spec N KLine a.
   Proof.
-    intros E1 E2 E3 E4. unfold convert, line2pathd, shape_spec. rewrite E1, E2, E3, E4. reflexivity.
+    intros E1 E2 E3 E4. unfold convert, line2pathd, shape_spec. rewrite E1, E2, E3, E4.
+    destruct (f_line_default c); reflexivity.
+  Qed.
+  (* repaired: on every route, whatever attributes are present *)
+  Lemma convert_line_repaired c rt a :
+    f_line_default c = true -> f_sax_line c = true ->
+    convert N c rt KLine a = shape_spec N KLine a.
+  Proof.
+    intros H1 H2. unfold convert, line2pathd, shape_spec. rewrite H1, H2. destruct rt; reflexivity.
   Qed.
 
   (* ---- polyline / polygon ---- *)
@@ -89,7 +97,7 @@ Section Shapes.
   Lemma last_pt_app (a : list pt) : forall p q, last_pt p (a ++ [q]) = q.
   Proof. induction a as [|x r IH]; intros p q; [reflexivity|]. cbn. apply IH. Qed.
 
-  Lemma convert_polyline rt a : convert N rt KPolyline a = shape_spec N KPolyline a.
+  Lemma convert_polyline c rt a : convert N c rt KPolyline a = shape_spec N KPolyline a.
   Proof.
     unfold convert, polyline2pathd, shape_spec.
     destruct (a_pts a) as [|p0 r]; [reflexivity|].
@@ -100,7 +108,7 @@ Section Shapes.
     - apply app_nil_r.
   Qed.
 
-  Lemma convert_polygon rt a : convert N rt KPolygon a = shape_spec N KPolygon a.
+  Lemma convert_polygon c rt a : convert N c rt KPolygon a = shape_spec N KPolygon a.
   Proof.
     unfold convert, polyline2pathd, shape_spec.
     destruct (a_pts a) as [|p0 r]; [reflexivity|].
@@ -133,18 +141,18 @@ Section Shapes.
     rewrite E3, E2, pt_eqb_refl. reflexivity.
   Qed.
 
-  Lemma convert_circle rt a r :
+  Lemma convert_circle c rt a r :
     a_r a = Some r -> pos N r = true ->
-    convert N rt KCircle a = shape_spec N KCircle a.
+    convert N c rt KCircle a = shape_spec N KCircle a.
   Proof.
     intros Er Hp. unfold convert, ellipse2pathd, shape_spec. rewrite Er, Hp.
     cbn [option_map]. f_equal. apply interp_ellipse; apply pos_nz; assumption.
   Qed.
 
-  Lemma convert_ellipse rt a rx ry :
+  Lemma convert_ellipse c rt a rx ry :
     a_r a = None -> a_rx a = Some rx -> a_ry a = Some ry ->
     pos N rx = true -> pos N ry = true ->
-    convert N rt KEllipse a = shape_spec N KEllipse a.
+    convert N c rt KEllipse a = shape_spec N KEllipse a.
   Proof.
     intros Er Ex Ey Hx Hy. unfold convert, ellipse2pathd, shape_spec.
     rewrite Er, Ex, Ey, Hx, Hy. cbn [andb option_map]. f_equal.
@@ -159,14 +167,15 @@ Section Shapes.
   Qed.
 
   (* no rx, no ry: the plain rectangle, on every route *)
-  Lemma convert_rect_plain rt a w h :
+  Lemma convert_rect_plain c rt a w h :
     a_w a = Some w -> a_h a = Some h -> a_rx a = None -> a_ry a = None ->
     pos N w = true -> pos N h = true -> nonneg N (zero N) = true ->
-    convert N rt KRect a = shape_spec N KRect a.
+    convert N c rt KRect a = shape_spec N KRect a.
   Proof.
     intros Ew Eh Ex Ey Hw Hh H0. unfold convert, rect2pathd, rect_has_rx, shape_spec.
     rewrite Ew, Eh, Ex, Ey, Hw, Hh. cbn [odef andb]. rewrite H0. cbn [andb rect_radii].
-    assert (Hf : (if via_dict rt then false else false) = false) by (destruct (via_dict rt); reflexivity).
+    assert (Hf : (if via_dict rt || f_rect_attr c then false else false) = false)
+      by (destruct (via_dict rt || f_rect_attr c); reflexivity).
     rewrite Hf. unfold rect_spec. rewrite eqb_refl. cbn [orb].
     f_equal. unfold interp. cbn [interp_from].
     set (x := odef (zero N) (a_x a)).
@@ -178,10 +187,11 @@ Section Shapes.
     rewrite Hne. reflexivity.
   Qed.
 
-  (* rx and/or ry given, radii positive and not larger than half the size,
-     the element handed over as a dict (svg2paths, SaxDocument) *)
-  Lemma convert_rect_rounded rt a w h rx ry :
-    via_dict rt = true ->
+  (* rx and/or ry given, the attributes reach rect2pathd (dict routes, or the
+     repaired membership test), radii positive and not larger than half the
+     size: with or without clamping *)
+  Lemma convert_rect_rounded c rt a w h rx ry :
+    via_dict rt || f_rect_attr c = true ->
     a_w a = Some w -> a_h a = Some h ->
     (a_rx a = Some rx /\ a_ry a = Some ry) \/
     (a_rx a = Some rx /\ a_ry a = None /\ ry = rx) \/
@@ -189,7 +199,7 @@ Section Shapes.
     pos N w = true -> pos N h = true -> pos N rx = true -> pos N ry = true ->
     nonneg N rx = true -> nonneg N ry = true -> nonneg N (zero N) = true ->
     ltb N (half N w) rx = false -> ltb N (half N h) ry = false ->
-    convert N rt KRect a = shape_spec N KRect a.
+    convert N c rt KRect a = shape_spec N KRect a.
   Proof.
     intros Hv Ew Eh Hr Hw Hh Hrx Hry Nrx Nry N0 Cx Cy.
     unfold convert, rect2pathd, rect_has_rx, shape_spec.
@@ -197,7 +207,38 @@ Section Shapes.
     assert (Hxz := eqb_neq _ _ (pos_nz _ Hrx)). assert (Hyz := eqb_neq _ _ (pos_nz _ Hry)).
     destruct Hr as [[Ex Ey]|[[Ex [Ey ->]]|[Ex [Ey ->]]]]; rewrite Ex, Ey; cbn [odef rect_radii fst snd];
       rewrite ?Nrx, ?Nry, ?N0; cbn [andb]; rewrite ?Cx, ?Cy;
+      destruct (f_rect_clamp c); rewrite ?Cx, ?Cy;
       unfold rect_spec; rewrite ?Hxz, ?Hyz; cbn [orb]; f_equal;
+      unfold interp; cbn [interp_from]; unfold arc_or_line; rewrite ?Hxz, ?Hyz; cbn [orb];
+      rewrite pt_eqb_refl; reflexivity.
+  Qed.
+
+  (* repaired (clamping): every non-negative rx / ry, also larger than half the
+     size; the only requirement is that the EFFECTIVE radii (SVG 1.1 9.2) are
+     not zero (then the rectangle is a plain one, see the harness for that
+     case: equal up to zero-length segments) *)
+  Lemma convert_rect_clamped c rt a w h :
+    via_dict rt || f_rect_attr c = true -> f_rect_clamp c = true ->
+    a_w a = Some w -> a_h a = Some h ->
+    (a_rx a <> None \/ a_ry a <> None) ->
+    pos N w = true -> pos N h = true ->
+    nonneg N (odef (zero N) (a_rx a)) = true -> nonneg N (odef (zero N) (a_ry a)) = true ->
+    fst (rect_radii N w h (a_rx a) (a_ry a)) <> zero N ->
+    snd (rect_radii N w h (a_rx a) (a_ry a)) <> zero N ->
+    convert N c rt KRect a = shape_spec N KRect a.
+  Proof.
+    intros Hv Hc Ew Eh Hr Hw Hh Nrx Nry Zx Zy.
+    unfold convert, rect2pathd, rect_has_rx, shape_spec.
+    rewrite Hv, Hc, Ew, Eh, Hw, Hh, Nrx, Nry. cbn [andb odef].
+    destruct (a_rx a) as [rx|] eqn:Ex, (a_ry a) as [ry|] eqn:Ey;
+      try (destruct Hr as [Hr|Hr]; exfalso; apply Hr; reflexivity);
+      cbn [rect_radii fst snd odef] in *;
+      match goal with
+      | |- context [rect_spec N _ _ _ _ ?RX ?RY] =>
+          set (rx' := RX) in *; set (ry' := RY) in *
+      end;
+      assert (Hxz := eqb_neq _ _ Zx); assert (Hyz := eqb_neq _ _ Zy);
+      unfold rect_spec; rewrite Hxz, Hyz; cbn [orb]; f_equal;
       unfold interp; cbn [interp_from]; unfold arc_or_line; rewrite ?Hxz, ?Hyz; cbn [orb];
       rewrite pt_eqb_refl; reflexivity.
   Qed.
@@ -237,5 +278,31 @@ Section Shapes.
     intros HM Ha. unfold apply_tf.
     destruct (mat_eqb N M (mI N)) eqn:E; [apply mat_eqb_eq in E; contradiction|].
     rewrite Ha. reflexivity.
+  Qed.
+
+  (* repaired SaxDocument (order and keep): flatten_all_paths is the reference
+     traversal followed by conversion and transform(), like Document.paths() *)
+  Definition sax_ref_entry c (o : @out K) : option (nat * list (@seg K)) :=
+    let '(k, a, M) := o in
+    match convert N c RSax k a with
+    | None => None
+    | Some s => match apply_tf N M s with
+                | Some s' => Some (a_id a, s')
+                | None => None
+                end
+    end.
+
+  Theorem sax_flatten_ref c (root : @node K) :
+    f_sax_order c = true -> f_sax_keep c = true ->
+    sax_flatten N c root = mapM (sax_ref_entry c) (flatten_ref N root (mI N)).
+  Proof.
+    intros Ho Hk. unfold sax_flatten, sax_parse.
+    rewrite (mapM_mapM _ (sax_flat_entry N c)).
+    rewrite <- (sax_tree_ref N OK c root Ho), mapM_map.
+    apply mapM_ext. intros [[k a] m]. cbn [fst snd sax_ref_entry].
+    destruct (convert N c RSax k a) as [s|]; cbn [option_map]; [|reflexivity].
+    unfold sax_flat_entry. destruct m as [M|]; cbn [odefm].
+    - rewrite Hk. destruct (apply_tf N M s); reflexivity.
+    - rewrite apply_tf_identity. reflexivity.
   Qed.
 End Shapes.
